@@ -511,7 +511,7 @@ type kaServer struct {
 const kaServerHeader = "<?xml version='1.0'?><stream:stream id='x' xmlns='jabber:client' xmlns:stream='http://etherx.jabber.org/streams' version='1.0'>"
 
 func newKaServer(cutAfter int, fin bool) (*kaServer, error) {
-	ln, err := net.Listen("tcp", "127.0.0.1:0")
+	ln, err := listenLoopback()
 	if err != nil {
 		return nil, err
 	}
@@ -1015,7 +1015,7 @@ func runKeepaliveWS(in *c18In, attempt int) (Sx, *c18Obs) {
 	setupErr := func(msg string) (Sx, *c18Obs) {
 		return L(L(Z(-2)), SBytes(msg), L(), kaNoReport), &c18Obs{Attempts: attempt, SetupErr: msg, CloseUs: -1, ReturnUs: -1}
 	}
-	base, err := net.Listen("tcp", "127.0.0.1:0")
+	base, err := listenLoopback()
 	if err != nil {
 		return setupErr("listen: " + err.Error())
 	}
